@@ -219,6 +219,19 @@ impl Monitor for C06 {
             if vin != total_in || paid < vin {
                 fail(acc, "input_conservation", format!("sum(in+fee) over steps = {total_in} but the vault received {vin} (trader paid {paid}) on a transfer-fee pool"));
             }
+            // unless the trader's own exact-in amount was used up entirely, what is taken from the trader is the SMALLEST
+            // amount that leaves curve amount + fee after the token program's fee: one unit less would not have sufficed
+            // (in particular nothing is taken for a swap that consumed nothing)
+            let in_mint = if c.a_to_b { pre.token_mint_a } else { pre.token_mint_b };
+            let chosen_by_trader = c.exact_in && paid == c.amount as i128;
+            if !chosen_by_trader && paid > 0 && paid <= u64::MAX as i128 {
+                let below = (paid - 1) as u64;
+                let delivers = below as i128 - crate::checks::c16::mint_fee(&obs.pre, &in_mint, below) as i128;
+                acc.count("fee_pool_requests_checked_for_minimality");
+                if delivers >= total_in {
+                    fail(acc, "trader_overcharged", format!("the swap consumed {total_in} (curve amount + fee) and the trader was charged {paid}, but {below} would already have delivered {delivers} after the token program's fee"));
+                }
+            }
             if vout != total_out || got > vout {
                 fail(acc, "output_conservation", format!("sum(out) over steps = {total_out}, vault paid {vout}, trader received {got} on a transfer-fee pool"));
             }
